@@ -33,7 +33,7 @@ TRUSTED = ['np.load/np.save/tobytes and the raw in-place write into templates.np
 ASSUMES = ['every probe has >= 1 channel, >= 1 template, >= 1 waveform sample, the same n_samples, table widths and sample rate; '
            'templates have as many channels as the channel map; index-table entries are valid local indices; x >= 0',
            'values are small integers / dyadic numbers exact in float32, coordinates multiples of 1/4 (exact regime)']
-TIMEOUT = {'quick': 20, 'thorough': 30}
+TIMEOUT = {'quick': 60, 'thorough': 120}     # a merge takes ~10 ms; generous because the machine may be heavily loaded
 MATCHERS = {}
 
 
@@ -107,7 +107,7 @@ def generate(tier, rng):
 
 # ---- implementation ---------------------------------------------------------------------------------------
 
-def run_case(case):
+def _run_once(case):
     base = tempfile.mkdtemp(prefix='c12_', dir=os.environ.get('VT_WORK') or None)
     try:
         crashed, out = M.run_merger(case['inp'], base)
@@ -116,6 +116,15 @@ def run_case(case):
         return ('merged', obs)
     finally:
         shutil.rmtree(base, ignore_errors=True)
+
+
+def run_case(case):
+    # the merge is deterministic: an exception that does not repeat is the environment (a full disk, a
+    # loaded machine), not phylib; one that repeats is reported as a crash by the pool
+    try:
+        return _run_once(case)
+    except Exception:
+        return _run_once(case)
 
 
 # ---- encoding ---------------------------------------------------------------------------------------------
